@@ -251,6 +251,58 @@ def body_assembly(env):
             env.eq('single region: assembly total = region value', am.Assembly.pressure_drop.fget(a), dps[0])
 
 
+def body_sweep_regions(env):
+    """Public path (generated input -> Reactor -> real sweep; constant-property coolant): every axial region of every
+    assembly ends the sweep with the friction loss f L rho v^2 / (2 De) of its own length -- also a top region that is
+    crossed in a single axial step (thickness below the step size) -- and the assembly total is the sum over its regions.
+    Enumeration of region layouts; no symbolic dimension."""
+    import os
+    import shutil
+    import tempfile
+    from symx import geninp, npshim
+    import dassh
+    L = 0.05
+    res = []
+    for thin in env.params['thin']:
+        req = None
+        for attempt in (0, 1):
+            d = tempfile.mkdtemp(prefix='dassh-verif-c14.')
+            try:
+                top = 0.01 if req is None else round(thin * req, 6)
+                axial = [('lower', 0.0, 0.01, 0.3), ('upper', round(L - top, 6), L, 0.3)]
+                asms = {'a': geninp.default_asm(3, P=0.0052, D=0.0042, Dw=0.0008, axial=axial), 'b': geninp.default_asm(2)}
+                inp = geninp.write_case(d, asms, [('a', 1, 1, 'FLOWRATE=0.5'), ('b', 2, 1, 'FLOWRATE=0.4')], gap_model='none', core_len=L)
+                with npshim.unpatched():
+                    r = dassh.Reactor(dassh.DASSH_Input(inp), path=os.path.join(d, 'out'), write_output=False)
+                    if req is None:
+                        req = float(r.req_dz)
+                        continue
+                    r.temperature_sweep()
+                    for a in r.assemblies:
+                        tot = 0.0
+                        for k, reg in enumerate(a.region):
+                            Lr = float(reg.z[1] - reg.z[0])
+                            if reg.is_rodded:
+                                ff, v, de = float(reg.coolant_int_params['ff']), float(reg.coolant_int_params['vel']), float(reg.bundle_params['de'])
+                            else:
+                                ff, v = float(reg.coolant_params['ff']), float(reg.coolant_params['vel'])
+                                de = float(reg._params['de']) if reg._rr_equiv is None else float(reg._rr_equiv.bundle_params['de'])
+                            want = ff * Lr * float(reg.coolant.density) * v * v / (2 * de)
+                            got = float(reg._pressure_drop['friction'])
+                            tot += float(reg.pressure_drop)
+                            res.append((thin, a.id, k, reg.name, Lr, want, got, float(r.req_dz)))
+                        res.append((thin, a.id, -1, 'total', 0.0, tot, float(a.pressure_drop), float(r.req_dz)))
+            finally:
+                shutil.rmtree(d, ignore_errors=True)
+    for thin, aid, k, nm, Lr, want, got, req in res:
+        if k < 0:
+            env.holds('top region %.2f steps thick, assembly %d: total = sum of its regions' % (thin, aid), abs(got - want) <= 1e-9 * max(want, 1e-30),
+                      key='assembly_total_not_sum_of_regions')
+        else:
+            env.holds('top region %.2f steps thick, assembly %d region %d (%s, %.6f m): friction loss of its own length (1e-6 relative)' % (thin, aid, k, nm, Lr),
+                      abs(got - want) <= 1e-6 * want and got > 0, key='region_loss_not_of_its_own_length')
+
+
 def instances(tier):
     inst = []
     ks = (1, 2, 3) if tier == 'quick' else (1, 2, 3, 4, 5, 6)
@@ -282,6 +334,7 @@ def instances(tier):
     for g in ('loss_coeff', 'REH', 'CDD'):
         inst.append(dict(label='clones[rodded,gravity=False,spacer grids by %s]' % g, body=body_clones,
                          params={'kind': 'rodded', 'gravity': False, 'grid': g}))
+    inst.append(dict(label='sweep-regions[top region 0.8, 1.0 and 3.5 steps thick]', body=body_sweep_regions, params={'thin': (0.8, 1.0, 3.5)}, check_vacuity=False))
     return inst
 
 
